@@ -173,7 +173,16 @@ class Type:
         else:
             raise NotImplementedError((self.kind, other.kind))
         # TODO: array type support
-        bits = max([t.bits for t in [self, other] if t.kind == kind and t.bits is not None] or [None])
+        bits_lst = []
+        for t in [self, other]:
+            if t.bits is None:
+                continue
+            if t.kind == kind:
+                bits_lst.append(t.bits)
+            elif kind == "complex" and t.kind == "float":
+                # a complex type must hold the float type as its component type
+                bits_lst.append(2 * t.bits)
+        bits = max(bits_lst or [None])
         return type(self)(self.context, kind, bits)
 
     @property
